@@ -344,7 +344,10 @@ fn main() {
     // workloads: candidate sets in canonical enqueue order, chosen to cover U = 1..5 units,
     // same-shard pairs (carriers 4,5 and 6,7 share a shard) and a two-instance tick
     let level = if r.quick() { 0 } else { 1 };
-    let scens = scenarios(level);
+    // multi-instance scenarios first: if a loaded machine makes the wall cap cut the enumeration,
+    // the single-instance tail is what is dropped (and reported), not the cross-instance workloads
+    let mut scens = scenarios(level);
+    scens.sort_by_key(|s| s.pool.iter().map(|(c, _)| c.1).collect::<BTreeSet<_>>().len() < 2);
     let max_units = r.pick(4, 5);
     let max_workers = r.pick(3, 4);
     let mut seen_units: BTreeSet<usize> = BTreeSet::new();
@@ -352,7 +355,7 @@ fn main() {
         let n = scen.pool.len();
         // every subset of rule-A candidates, deduplicated by (units, accepted count) so the
         // workload list stays small but covers each unit count with and without rejections
-        let mut picked: BTreeSet<(usize, usize, bool)> = BTreeSet::new();
+        let mut picked: BTreeSet<(usize, usize, bool, Vec<u8>)> = BTreeSet::new();
         for k in 1..=n.min(6) {
             for ixs in mc::enumerate::subsets_k(n, k) {
                 if r.over_budget_frac(0.6) {
@@ -373,7 +376,14 @@ fn main() {
                 if accepted == 0 || accepted > max_units + 1 {
                     continue;
                 }
-                if !picked.insert((accepted, seq.len() - accepted.min(seq.len()), same_shard)) {
+                // how the accepted rewrites are spread over instances (sorted): a worker moving from a
+                // unit of one instance to a *later* unit of another instance is its own code path
+                let inst_sig = {
+                    let mut v: Vec<u8> = seq.iter().zip(o.applied.iter()).filter(|(_, a)| **a).map(|(c, _)| c.1).collect();
+                    v.sort_unstable();
+                    v
+                };
+                if !picked.insert((accepted, seq.len() - accepted.min(seq.len()), same_shard, inst_sig)) {
                     continue;
                 }
                 let Some(w) = make_workload(&r, scen, seq) else { continue };
